@@ -371,7 +371,14 @@ def resolve_locals(fi, t, at_cfg_node, tm, only_calls=False, depth=3):
                 if isinstance(cand, ast.Name) and cand.id == nm and isinstance(cand.ctx, ast.Load):
                     probe = cand
                     break
+            if nm in tm.env.mutated:
+                return x      # the object is modified in place after its definition: the name is its identity
             if probe is None:
+                b = tm.env.single(nm)
+                if b is not None and b.kind == "assign" and b.value is not None and (not only_calls or isinstance(b.value, ast.Call)):
+                    inner = tm.term(b.value)
+                    bn = cfg_of(fi).node_of(b.stmt)
+                    return resolve_locals(fi, inner, bn, tm, only_calls, depth - 1) if bn is not None else inner
                 return x
             b = reaching_unique_def(fi, nm, probe)
             if b is not None and b.kind == "assign" and b.value is not None and (not only_calls or isinstance(b.value, ast.Call)):
